@@ -50,6 +50,7 @@ type thread struct {
 	op     string      // pending operation
 	done   bool
 	fn     func()
+	idle   bool // parked in WaitQuiescent
 }
 
 // Result is what one execution produced.
@@ -278,6 +279,16 @@ func (s *Sched) schedule(from *thread) {
 		}
 	}
 	if len(en) == 0 {
+		// quiescence: hand control to a thread parked in WaitQuiescent
+		for _, t := range s.threads {
+			if t.idle && !t.done {
+				t.idle = false
+				en = append(en, t)
+				break
+			}
+		}
+	}
+	if len(en) == 0 {
 		s.end()
 		if !from.done {
 			s.park(from)
@@ -487,6 +498,19 @@ func WaitUntil(what string, cond func() bool) {
 		return
 	}
 	s.point("wait:"+what, cond)
+}
+
+// WaitQuiescent blocks the calling harness thread until no other thread is
+// enabled (everything else has finished or is blocked): the horizon of a
+// scenario whose environment may have stopped answering.
+func WaitQuiescent() {
+	s := S
+	if s == nil || s.aborting {
+		return
+	}
+	t := s.cur
+	t.idle = true
+	s.point("wait:quiescent", func() bool { return !t.idle })
 }
 
 // MapKeys returns the keys of map m in a deterministic (sorted) order; it
